@@ -79,22 +79,102 @@ func (vc *VC) strFromRune(r string) string {
 	return "(utf8_enc " + r + ")"
 }
 
+// runeConvFns: string([]rune) is the UTF-8 encoding runes_str(elements, offset, count) of the rune sequence;
+// []rune(s) is the decoded sequence str_runes(s) of length str_nrunes(s). Both are uninterpreted; the only
+// facts given are lengths in range and that encoding the decoding of a string gives the string back.
+func (vc *VC) runeConvFns() {
+	vc.strPrelude()
+	vc.declareOnce("str:runeconv", `(declare-fun runes_str ((Array Int Int) Int Int) Str)
+(declare-fun str_runes (Str) (Array Int Int))
+(declare-fun str_nrunes (Str) Int)
+(assert (forall ((s Str)) (! (=> (>= (slen s) 0) (and (<= 0 (str_nrunes s)) (<= (str_nrunes s) (slen s)))) :pattern ((str_nrunes s)))))
+(assert (forall ((a (Array Int Int)) (o Int) (n Int)) (! (and (str_wf (runes_str a o n)) (<= (slen (runes_str a o n)) 288230376151711744) (=> (<= n 0) (= (slen (runes_str a o n)) 0))) :pattern ((runes_str a o n)))))`)
+}
+
 func (ex *Exec) strFromSlice(x string, sl *types.Slice) string {
-	ex.vc.strPrelude()
-	ex.vc.errorf("conversion from %s to string is not modelled yet", sl)
-	return ex.vc.fresh("strconv", strSort)
+	vc := ex.vc
+	if b, ok := sl.Elem().Underlying().(*types.Basic); ok && b.Kind() == types.Int32 {
+		vc.runeConvFns()
+		k, srt := ex.elemKey(sl.Elem())
+		E := ex.get(ex.curState, k, "(Array Int (Array Int "+srt+"))")
+		vc.assumptions["string([]rune) / []rune(string) are the UTF-8 encoder / decoder (uninterpreted runes_str / str_runes)"] = true
+		return "(runes_str (select " + E + " (sarr " + x + ")) (soff " + x + ") (slen_ " + x + "))"
+	}
+	vc.strPrelude()
+	vc.errorf("conversion from %s to string is not modelled", sl)
+	return vc.fresh("strconv", strSort)
 }
 
 func (ex *Exec) sliceFromStr(x string, sl *types.Slice) string {
-	ex.vc.errorf("conversion from string to %s is not modelled yet", sl)
-	return ex.vc.fresh("strconv", sliceSort)
+	vc := ex.vc
+	if b, ok := sl.Elem().Underlying().(*types.Basic); ok && b.Kind() == types.Int32 {
+		vc.runeConvFns()
+		r := ex.newRef("runes")
+		k, srt := ex.elemKey(sl.Elem())
+		as := "(Array Int (Array Int " + srt + "))"
+		ex.set(ex.curState, k, as, sSto(ex.get(ex.curState, k, as), r, "(str_runes "+x+")"))
+		vc.assumptions["string([]rune) / []rune(string) are the UTF-8 encoder / decoder (uninterpreted runes_str / str_runes)"] = true
+		return "(mk_slice " + r + " 0 (str_nrunes " + x + ") (str_nrunes " + x + "))"
+	}
+	vc.errorf("conversion from string to %s is not modelled", sl)
+	return vc.fresh("strconv", sliceSort)
 }
 
+// runeFns: rune_at(s,p) is the rune decoded at byte position p of s, rune_w(s,p) its width in bytes (1..4, never
+// past the end; an ASCII byte decodes to itself with width 1; invalid UTF-8 decodes with width 1 like Go does).
+func (vc *VC) runeFns() {
+	vc.strPrelude()
+	vc.declareOnce("str:rune", `(declare-fun rune_at (Str Int) Int)
+(declare-fun rune_w (Str Int) Int)
+(assert (forall ((s Str) (p Int)) (! (and (<= 1 (rune_w s p)) (<= (rune_w s p) 4)
+  (=> (and (<= 0 p) (< p (slen s))) (<= (+ p (rune_w s p)) (slen s)))
+  (=> (and (<= 0 p) (< p (slen s)) (< (select (sbytes s) p) 128)) (and (= (rune_w s p) 1) (= (rune_at s p) (select (sbytes s) p))))
+  (<= 0 (rune_at s p)) (<= (rune_at s p) 1114111))
+  :pattern ((rune_w s p)) :pattern ((rune_at s p)))))`)
+}
+
+// strNext: range over a string yields (byte position, rune) pairs, advancing by the width of each rune.
 func (ex *Exec) strNext(i *ssa.Next, it *rangeIter) {
-	ex.vc.errorf("range over string is not modelled yet")
-	ex.vals[i] = Val{Tup: []Val{{T: "false"}, {T: "0"}, {T: "0"}}}
+	vc := ex.vc
+	vc.runeFns()
+	st := ex.curState
+	pos := ex.get(st, it.posKey, "Int")
+	ok := vc.define(ex.pfx+i.Name()+"_ok", "Bool", "(< "+pos+" (slen "+it.str+"))")
+	k := vc.define(ex.pfx+i.Name()+"_k", "Int", pos)
+	v := vc.define(ex.pfx+i.Name()+"_r", "Int", "(rune_at "+it.str+" "+pos+")")
+	vc.assume(sImp(ex.curReach, "(>= "+pos+" 0)"))
+	ex.set(st, it.posKey, "Int", sIte(ok, "(+ "+pos+" (rune_w "+it.str+" "+pos+"))", pos))
+	ex.vals[i] = Val{Tup: []Val{{T: ok}, {T: k}, {T: v}}}
 }
 
 func (ev *Eval) strBuiltin(e ECall) (TV, bool) {
+	arg := func(i int) TV { return ev.rval(ev.eval(e.Args[i])) }
+	strT := goVT(types.Typ[types.String])
+	switch e.Fn {
+	case "builder":
+		// the text accumulated so far in a strings.Builder (ghost content)
+		x := ev.eval(e.Args[0])
+		ev.vc().strPrelude()
+		return TV{T: sSel(ev.ex.get(ev.state(), "SB", "(Array Int Str)"), x.T), Ty: strT}, true
+	case "runestr":
+		ev.vc().runeConvFns()
+		return TV{T: "(runes_str " + arg(0).T + " " + arg(1).T + " " + arg(2).T + ")", Ty: strT}, true
+	case "strrunes":
+		ev.vc().runeConvFns()
+		return TV{T: "(str_runes " + arg(0).T + ")", Ty: VT{Kind: "seq", Args: []VT{vtInt}}}, true
+	case "nrunes":
+		ev.vc().runeConvFns()
+		return TV{T: "(str_nrunes " + arg(0).T + ")", Ty: vtInt}, true
+	case "runeat":
+		ev.vc().runeFns()
+		return TV{T: "(rune_at " + arg(0).T + " " + arg(1).T + ")", Ty: vtInt}, true
+	case "runew":
+		ev.vc().runeFns()
+		return TV{T: "(rune_w " + arg(0).T + " " + arg(1).T + ")", Ty: vtInt}, true
+	case "lower", "upper":
+		fn := "uni_" + e.Fn
+		ev.vc().declareOnce("fn:"+fn, "(declare-fun "+fn+" (Int) Int)\n(assert (forall ((r Int)) (! (and (<= 0 ("+fn+" r)) (<= ("+fn+" r) 1114111)) :pattern (("+fn+" r)))))")
+		return TV{T: "(" + fn + " " + arg(0).T + ")", Ty: vtInt}, true
+	}
 	return TV{}, false
 }
